@@ -118,7 +118,15 @@ pub fn one(cred_i: usize, cfg: &Cfg, exp: &TimeVal, nbf: &TimeVal, must_accept: 
         let Out::Ok(p) = drive::present(&mut h, sel, &pipeline::kb_args(cfg)) else { return };
         p
     };
+    let first = drive::verify(&pres, keys::issuer_dec(cfg.alg, 0), aud, nonce, cfg.fmt);
+    // the same presentation a second time in this process, and once in the other serialization: a rejection
+    // must not be forgotten (and an acceptance not withdrawn)
     let out = drive::verify(&pres, keys::issuer_dec(cfg.alg, 0), aud, nonce, cfg.fmt);
+    let other = codec::parse(&pres, cfg.fmt).map(|p| drive::verify(&p.serialize(cfg.fmt.other()), keys::issuer_dec(cfg.alg, 0), aud, nonce, cfg.fmt.other()));
+    if first.class() != out.class() || other.as_ref().map(|o| o.class() != first.class()).unwrap_or(false) {
+        l.violation(mk("verdict_changes_on_retry", "c09_retry".into(), format!("first {}, second {}, other format {:?}", first.class(), out.class(), other.as_ref().map(|o| o.class()))));
+        return;
+    }
     match (&out, must_accept) {
         (Out::Ok(_), true) => l.outcome("in_window_accepted"),
         (Out::Err { .. }, false) => {
